@@ -1167,6 +1167,14 @@ void DOMLSSerializerImpl::processNode(const DOMNode* const nodeToWrite, int leve
 
             ensureValidString(nodeToWrite, nodeValue);
 
+            // "--" (or a trailing "-") cannot be written inside a comment
+            if (lent > 0)
+            {
+                static const XMLCh gDoubleDash[] = { chDash, chDash, chNull };
+                if (XMLString::patternMatch(nodeValue, gDoubleDash) != -1 || nodeValue[lent - 1] == chDash)
+                    reportError(nodeToWrite, DOMError::DOM_SEVERITY_FATAL_ERROR, XMLDOMMsg::INVALID_CHARACTER_ERR);
+            }
+
             // Figure out if we want pretty-printing for this comment.
             // If this comment node does not have any element siblings
             // (i.e., it is a text node) then we don't want to add any
